@@ -1,12 +1,13 @@
 (* Which variant of the modelled code the tree under /repo (and its dependency) carries.  The
    correspondence check and the evaluation models use these flags; the theorems are stated for
    explicit flag values.  When a proposed fix lands, flip its flag here (and replace the matching
-   _refuted/_partial theorems of props/C13.v by the _fixed/_guarded ones). *)
+   _refuted/_partial theorems of props/C13.v by the full ones; done for the two flags that are true). *)
 From LR Require Import lib.Base.
 
 (* xbinary.UnmarshalBytes rejects a negative / overflowing length (dependency: not on this tree) *)
 Definition tree_guard : bool := false.
-(* field.NewFieldsFromKVString re-checks the 255-byte limit after unquoting (proposed_fixes/C13-unquote-expansion) *)
-Definition tree_fields_fx : bool := false.
-(* utils.EscapeJsonStr advances over a valid U+FFFD (proposed_fixes/C13-escapejsonstr-ufffd) *)
-Definition tree_escape_fx : bool := false.
+(* field.NewFieldsFromKVString applies the 255-byte limit to the string it stores, after unquoting
+   (repaired: proposed_fixes/applied/C13-unquote-expansion) *)
+Definition tree_fields_fx : bool := true.
+(* utils.EscapeJsonStr advances over a valid U+FFFD (repaired: proposed_fixes/applied/C13-escapejsonstr-ufffd) *)
+Definition tree_escape_fx : bool := true.
